@@ -6,6 +6,7 @@ import (
 	"github.com/ethereum/go-ethereum/common"
 	"github.com/holiman/uint256"
 	"math/big"
+	"sort"
 )
 
 type NodeType int
@@ -87,18 +88,30 @@ func NewRootKey() *StorageKey {
 func (k *StorageKey) Children() []*StorageKey {
 	res := make([]*StorageKey, 0, len(k.childrenIndex))
 	if len(k.childrenIndex) > 0 {
-		for _, child := range k.childrenIndex {
-			res = append(res, child)
+		// map iteration order is random, return the children ordered by their index key
+		for _, index := range sortedIndexKeys(k.childrenIndex) {
+			res = append(res, k.childrenIndex[index])
 		}
 	}
 	return res
+}
+
+// sortedIndexKeys returns the keys of a children index in ascending order,
+// so that the same execution always yields the same lists
+func sortedIndexKeys(m map[string]*StorageKey) []string {
+	keys := make([]string, 0, len(m))
+	for index := range m {
+		keys = append(keys, index)
+	}
+	sort.Strings(keys)
+	return keys
 }
 
 // ChildrenIndices returns the indices of the children of the storage key
 func (k *StorageKey) ChildrenIndices() [][]byte {
 	res := make([][]byte, 0, len(k.childrenIndex))
 	if len(k.childrenIndex) > 0 {
-		for index := range k.childrenIndex {
+		for _, index := range sortedIndexKeys(k.childrenIndex) {
 			res = append(res, []byte(index))
 		}
 	}
@@ -362,7 +375,7 @@ func (s *StateChanges) IndicesOfChanges(account common.Address, stateVarName str
 
 	res := make([][]byte, 0, len(key.childrenIndex))
 	if len(key.childrenIndex) > 0 {
-		for index := range key.childrenIndex {
+		for _, index := range sortedIndexKeys(key.childrenIndex) {
 			res = append(res, []byte(index))
 		}
 	}
